@@ -57,9 +57,14 @@ def setKV (k : String) (v : Json) : List (String × Json) → List (String × Js
   | [] => [(k, v)]
   | (k', v') :: r => if k' = k then (k, v) :: r else (k', v') :: setKV k v r
 
+/-- removal of a key (objects are key-unique, so at most one member goes) -/
 def delKV (k : String) : List (String × Json) → List (String × Json)
   | [] => []
-  | (k', v') :: r => if k' = k then r else (k', v') :: delKV k r
+  | (k', v') :: r => if k' = k then delKV k r else (k', v') :: delKV k r
+
+/-- deleting a list of names, in order -/
+def delAll (ms : List String) (l : List (String × Json)) : List (String × Json) :=
+  ms.foldl (fun acc m => delKV m acc) l
 
 /-- `json_object_set` (fails, i.e. `none`, on non-objects) -/
 def set? (j : Json) (k : String) (v : Json) : Option Json :=
